@@ -614,6 +614,33 @@ theorem C02_byte_decoder_refines (tk : Tokeniser) (cs : List Bs) (b : Bs) :
     | none => pullU (tokAll tk b).1 (absChunks tk (tokAll tk b).2 cs) = none :=
   pullB_refines tk cs b
 
+/-- **A bounded read-ahead is one more chunking.**  The decoder reads through a buffer of bounded
+size (4096 bytes), so a segment longer than that arrives as several reads: the units delivered are
+the same, and by `C02_byte_decoder_refines` the run is the unit-level run over the segmentation
+those reads induce — in particular clear text pipelined behind `<proceed/>` beyond the buffer's
+size is NOT in the read-ahead that is dropped at the switch: it is still on the connection, where
+the TLS layer finds it (the handshake fails; see the example below and the `oversized` scripts of
+the harness, which hands the model exactly this induced segmentation). -/
+theorem C02_bounded_read_ahead (tk : Tokeniser) (k n : Nat) (cs : List Bs) :
+    unitsB tk k (boundedReads n cs) [] = unitsB tk k cs [] :=
+  C02_rechunking_units tk k _ _ [] [] (by rw [boundedReads_flatten])
+
+/-- "H P w w" sent as one segment, read two bytes at a time: `<proceed/>` completes in the first
+read, the pipelined units arrive in the second — the segmentation of the second script below -/
+example : absChunks byteTokeniser [] (boundedReads 1 [[72, 80, 32, 32]]) = [[.hdr true, .proceed], [.space, .space]] := by
+  decide +kernel
+
+/-- what that means for the session: pipelined clear text inside the read-ahead is dropped and the
+handshake goes on; beyond it, the TLS layer meets clear text and the outcome is an error -/
+example :
+    (run { rr := false, rt := false, sk := true, others := [], tee := false } ⟨0, 0, none, .netConn⟩ 0
+      ⟨[[.hdr true, .list [⟨0, true, true⟩]], [.proceed, .space]], [.unit (.hdr true), .unit (.list [])], [(0, ⟨0, false, false⟩)]⟩ 20).2
+      = .done 5 true true ∧
+    (run { rr := false, rt := false, sk := true, others := [], tee := false } ⟨0, 0, none, .netConn⟩ 0
+      ⟨[[.hdr true, .list [⟨0, true, true⟩]], [.proceed], [.space]], [.unit (.hdr true), .unit (.list [])], [(0, ⟨0, false, false⟩)]⟩ 20).2
+      = .stop (.err .tls) := by
+  decide +kernel
+
 /-- **The clear-text phase is invariant under re-chunking of the peer's byte stream.**  Two
 sessions whose peers send the same clear-text bytes cut into reads differently go through the
 negotiator call in lock step: the same writes and deliveries (equal traces), the same stop reason,
